@@ -156,7 +156,7 @@ func genRandom(env *univ.Env, opSeed int64) (*opgen.Op, *ast.QueryDocument, stri
 	return diffrun.GenValid(env.Schema, opSeed, ast.Query, opgen.Config{MaxDepth: 4, MaxSel: 4, Defer: true, DeferProb: 0.6,
 		// deferral only applies to resolver-backed fields of non-root objects: bias towards them
 		FieldFilter: func(t, f string) bool {
-			if f == "xsc" {
+			if f == "xsc" || f == "xboom" {
 				return false
 			}
 			m, ok := env.Probe.Fields[t+"."+f]
